@@ -85,6 +85,12 @@ def random_recipe(rng, space=None):
         ym *= 2
     r["w"] = xm * rng.randrange(1, max(2, sp["maxw"] // xm + 1))
     r["h"] = ym * rng.randrange(1, max(2, sp["maxh"] // ym + 1))
+    if rng.random() < 0.25:
+        # a clean area strictly inside the frame
+        r["cw"] = rng.randrange(1, r["w"] + 1)
+        r["ch"] = rng.randrange(1, r["h"] + 1)
+        r["lo"] = rng.randrange(0, r["w"] - r["cw"] + 1)
+        r["to"] = rng.randrange(0, r["h"] - r["ch"] + 1)
     # frame rate / aspect ratio: preset, custom, or base default
     k = rng.random()
     if k < 0.4:
